@@ -69,6 +69,8 @@ def gen_spec(rng):
     strategy = rng.choice(["plain", "plain", "page_by", "page_by_new", "page_by_new_first", "subline",
                            "subline_page_by", "nested"])
     n = rng.choice([rng.randint(1, 6), rng.randint(6, 40)])
+    if rng.random() < 0.03:
+        n = rng.randint(70, 260)       # long tables / long pages
     pg = {"plain": 0, "page_by": rng.choice([1, 2]), "page_by_new": 1, "page_by_new_first": 1, "subline": 0,
           "subline_page_by": 1, "nested": rng.choice([2, 3])}[strategy]
     sb = {"subline": rng.choice([1, 2]), "subline_page_by": 1}.get(strategy, 0)
@@ -105,9 +107,12 @@ def gen_spec(rng):
     if rng.random() < 0.3:
         body["col_rel_width"] = [rng.choice([1, 2, 3]) for _ in range(nc)]
     spec = {"kind": "table", "df": df, "body": body, "colheader": rng.choice(["default", "none"]), "title": None,
-            "page": {"nrow": rng.choice([4, 6, 9, 15, 200])}, "_meta": dict(meta, shapes=shapes)}
+            "page": {"nrow": rng.choice([4, 6, 9, 15, 200] + ([70, 100, 130] if n > 60 else []))},
+            "_meta": dict(meta, shapes=shapes)}
     if rng.random() < 0.3:
         spec["footnote"] = {"text": "FN0", "as_table": rng.random() < 0.5}
+    if rng.random() < 0.5:
+        spec["_forms"] = rng.randint(1, 10 ** 6)      # numpy arrays / DataFrames / tuples for the attributes
     return spec
 
 
